@@ -261,7 +261,13 @@ def counter_discipline(ctx, rep):
         for e, rel, val, edge, dty in conds:
             if e[0] == "discr" and "next" in show(e[1]) and ((rel == "==" and val == 1) or (rel == "notin" and 0 in val)):
                 base = e[1]
-                ok2 = True
+                # the iterator must be the one over the uninitialised tail (self.buffer[init..]), not the caller's byte iterator
+                it = base[2][0] if base[0] == "call" and base[2] else None
+                while it is not None and it[0] in ("ref", "deref"):
+                    it = it[2] if it[0] == "ref" else it[1]
+                init = eir.var_init(it[1]) if it is not None and it[0] == "var" else None
+                if init is not None and "self.buffer" in show(strip_sites(init)):
+                    ok2 = True
         rep.ob(rule, "extend | one increment per slot", ok1 and ok2,
                "`*initialized_ += 1` happens only after the slot iterator yielded Some" if ok1 and ok2 else
                "increment in extend is not paired with a successful buf_iter.next()", ext.loc())
